@@ -517,14 +517,19 @@ class BaseParser:
         as_attname: bool = False,
         excluded_keys: List[str] = None,
     ):
+        origin = data
+        lookup_keys = {}
         if self.case_insensitive_names:
             _data = {}
+            origin = {}
             for k, v in data.items():
                 k = str(k)
                 if k.lower() in self.case_insensitive_names:
-                    _data[k.lower()] = v
+                    lookup_keys[k] = k.lower()
                 else:
-                    _data[k] = v
+                    lookup_keys[k] = k
+                _data[lookup_keys[k]] = v
+                origin[k] = v
             data = _data
 
         result = {}
@@ -607,8 +612,9 @@ class BaseParser:
         if options.addition is not None:
             # that we cannot ignore addition here
             addition = {}
-            for k, v in data.items():
-                if k in used_alias:
+            for k, v in origin.items():
+                # additional keys keep the spelling they were given in
+                if lookup_keys.get(k, k) in used_alias:
                     continue
                 # if excluded_keys and k in excluded_keys:
                 #     pass
